@@ -3,19 +3,35 @@
 
 /// numerator of v over S at depth `bits`: v * 2^bits / S as an exact integer, if it is one
 pub fn numerator(v: f64, s: u64, bits: u32) -> Option<u64> {
-    if !(v.is_finite()) || v < 0.0 || bits > 62 {
+    if !(v.is_finite()) || v < 0.0 || bits > 62 || s == 0 {
         return None;
     }
-    // scaling by a power of two is exact in f64 (no overflow here: v <= 2^20, bits <= 62)
-    let t = v * (2f64).powi(bits as i32);
-    if t.fract() != 0.0 || t >= 9.007199254740992e15 {
+    if v == 0.0 {
+        return Some(0);
+    }
+    // v = mant * 2^exp exactly (integer decoding of the double); t = v * 2^bits as an exact 128-bit integer
+    let b = v.to_bits();
+    let raw_exp = ((b >> 52) & 0x7ff) as i64;
+    let frac = b & ((1u64 << 52) - 1);
+    let (mant, exp) = if raw_exp == 0 { (frac, -1074i64) } else { (frac | (1u64 << 52), raw_exp - 1075) };
+    let sh = exp + bits as i64;
+    let t: u128 = if sh >= 0 {
+        if sh > 70 {
+            return None;
+        }
+        (mant as u128) << sh
+    } else {
+        let d = (-sh) as u32;
+        if d >= 64 || mant & ((1u64 << d) - 1) != 0 {
+            return None; // not an integer at this depth
+        }
+        (mant >> d) as u128
+    };
+    if t % s as u128 != 0 {
         return None;
     }
-    let ti = t as u64;
-    if s == 0 || ti % s != 0 {
-        return None;
-    }
-    Some(ti / s)
+    let q = t / s as u128;
+    if q > u64::MAX as u128 { None } else { Some(q as u64) }
 }
 
 /// top `n` bits of v / S by doubling (v in [0, S)); used beyond the exact phase
